@@ -105,7 +105,9 @@ fn mode_c07(a: &Args) -> Value {
                 }
                 _ => (gen_float(&mut rng, k, true), gen_float(&mut rng, k + 31, false), gen_float(&mut rng, k + 57, false), "stratified"),
             };
-            let phc: i64 = *rng.pick(&[0i64, 0, 0, 1, 12345, 1 << 40]);
+            // "all PHC error-bound values": whatever the attribute file can hold parses as an i64, including a driver's
+            // all-ones "unknown" value; the sum then has no i64 representation and must not wrap
+            let phc: i64 = *rng.pick(&[0i64, 0, 0, 0, 0, 0, 1, 1, 12345, 12345, 1 << 40, 1 << 40, 1 << 62, i64::MAX, i64::MAX - 999, 9_000_000_000_000_000_000]);
             // Now and then the very same report again, with another PHC bound.
             let (o, dl, dp, kind) = match sent.last() {
                 Some((prev, prev_phc, _)) if rng.chance(1, 12) && *prev_phc != phc => (prev.correction_bits, prev.delay_bits, prev.dispersion_bits, "same-report-other-phc"),
